@@ -18,6 +18,7 @@
  */
 #include "drv_util.h"
 #include <errno.h>
+#include <unistd.h>
 #include <sys/uio.h>
 #include "types.h"
 #include "values.h"
@@ -221,8 +222,25 @@ static void op_size(long id)
 	puts("bad-op");
 }
 
+/* registered before the registry is used for the first time, so it runs AFTER the registry's own exit handlers: a late
+ * lookup (an atexit handler or static destructor of the application) still has to find the built-in types described */
+static void exit_probe(void)
+{
+	for (size_t i = 0; i < sizeof(BUILTIN) / sizeof(*BUILTIN); i++) {
+		/* the value types of the three static tables and the static managed types */
+		if (BUILTIN[i].id >= MPT_ENUM(_TypeInterfaceBase) && BUILTIN[i].id < 0x800) continue;
+		const MPT_STRUCT(type_traits) *t = mpt_type_traits((mpt_type_t) BUILTIN[i].id);
+		if (!t || t->size != BUILTIN[i].size) {
+			fprintf(stderr, "exit_probe.c:1:1: runtime error: built-in type %ld not described after the exit handlers\n", BUILTIN[i].id);
+			fflush(stderr);
+			_exit(3);
+		}
+	}
+}
+
 int main(void)
 {
+	atexit(exit_probe);
 	static char line[1 << 16];
 	drv_init();
 	/* built-in named ids are never "fresh" */
